@@ -685,6 +685,15 @@ pub fn run_fuzz(ctx: &mut Ctx) {
                         d.extend_from_slice(&kdbx::enc_outer(&s.outer, &master, &s.iv, &payload).unwrap());
                         (d, format!("authenticated-malformed:{}", k))
                     }
+                    4 if mi % 16 == 4 => {
+                        // an IV / nonce of a length the outer cipher does not take (the header is not authenticated in KDBX 3)
+                        let mut s2 = s.clone();
+                        s2.iv = rng.bytes_pick(&[0usize, 8, 12, 16, 24, 32]);
+                        if s2.iv.len() == s2.outer.iv_len() {
+                            s2.iv.push(0);
+                        }
+                        (build_kdbx3_raw(&s2, &order), "iv-length".into())
+                    }
                     4 => { let mut s2 = s.clone(); s2.transform_seed = rng.bytes_pick(&[0, 16, 31, 33]); (build_kdbx3_raw(&s2, &order), "transform-seed-length".into()) }
                     5 => { let mut d = data[..12].to_vec(); d.extend(rng.bytes_below(60)); (d, "signature-then-random".into()) }
                     6 => {
